@@ -325,6 +325,17 @@ def correspond(ctx):
                     continue            # sort() with equal sequence numbers is outside the model (DESIGN 6 C17)
                 specs.append(spec)
                 exh += 1
+    # directed: an assignment that does not change the value still rebuilds (and re-groups) the ACL - the state
+    # before it is one a rebuild would normalise (a leading block without heading moved by reverse())
+    body0 = ["permit icmp any any", "remark = B1", "permit tcp any any eq 80", "remark = B2, x",
+             "permit udp any any eq 53", "deny ip any any"]
+    for plat in ("ios", "nxos"):
+        for pn in (False, True):
+            for prn in (False, True):
+                for same in (["port_nr", pn], ["protocol_nr", prn], ["platform", plat], ["type_ext"]):
+                    for tail in ([["reverse"]], [["ungroup"]], [["reverse"], ["ungroup"]]):
+                        specs.append({"platform": plat, "port_nr": pn, "protocol_nr": prn, "body": list(body0),
+                                      "ops": [["group", "= "], ["reverse"], list(same)] + [list(t) for t in tail]})
     cases = ops.cases_for(ca, specs)
     ctx.samples += [specs[0], specs[-1]]
     dist, ok_steps = {}, 0
